@@ -48,3 +48,19 @@ prop("C02", shards=16,
      level_note="Trusted: harness/gomap builders and comparison, harness/ref/nbt. int/uint, channels, funcs, non-string map keys are "
                 "outside the documented universe. []any holding int8/int32/int64 elements is excluded (documented as typed array, "
                 "cannot come back as []any). Nil pointer fields are expected to be left out (see fix 25ca494).")
+
+prop("C03", shards=16, fuzz=[("FuzzC03", 120)],
+     technique="rapid-generated documents with exhaustive truncation and enumerated field corruption against a strict reference reader; native go fuzzing in the thorough tier",
+     rule="For each generated valid document (file/network): the document itself, EVERY strict prefix, every length/count field "
+          "(up to 6 per kind) overwritten with {MinInt, -1, -2, 0, remaining+1, 2^16, 2^20}, every tag id / list element id with "
+          "{0, 13, 0x1f, 0x78, 0xff, another valid id}, plus generated 1-3 bit flips, splices with a second document and raw "
+          "random bytes; each input is fed to 9 entry points (any, map, struct{} skipping, typed, shape-matching struct with and "
+          "without DisallowUnknownFields, RawMessage + String/Unmarshal, StringifiedMessage, dynbt.Value + MarshalNBT) through "
+          "ByteReader and plain Reader. Oracle: no panic, returns (60 s watchdog per document), and a nil error implies that the "
+          "strict reference reader accepts exactly the consumed bytes as one document. Non-trivial: input differs from the valid "
+          "document. Distinct: hash(input, format). evaluations counts inputs; decoder_calls = inputs x entries.",
+     level_text="Sampled documents with exhaustive inner enumeration (all truncation offsets, all hostile values of the first fields "
+                "of each kind); coverage-guided fuzzing on top in the thorough tier.",
+     level_note="Trusted: harness/ref/nbt strict reader. Inputs whose reachable declared length exceeds 2^20 are excluded and counted "
+                "(allocation size is not part of the statement). A lone 0x00 (TAG_End, the 'no NBT' marker) may be accepted. An empty "
+                "list may carry any element-type byte (vanilla does not look it up either).")
